@@ -22,6 +22,9 @@ def inverted : Str → Bool
   | c :: _ => c == dash
   | [] => false
 
+/-- `r[1:]` of an inverted entry -/
+def strip (x : Str) : Str := x.drop 1
+
 structure Matcher where
   reverse : Bool
   value : Str
@@ -33,7 +36,7 @@ def filterLoop : List Str → List Matcher → List Matcher → List Matcher × 
   | [], f, r => (f, r, false)
   | x :: xs, f, r =>
     if x = star then (f, r, true)
-    else if inverted x then filterLoop xs f (r ++ [⟨true, x.drop 1⟩])
+    else if inverted x then filterLoop xs f (r ++ [⟨true, strip x⟩])
     else filterLoop xs (f ++ [⟨false, x⟩]) r
 
 /-- `filterRules(rules) (filtered []matcher, matchAll bool)` -/
